@@ -118,12 +118,17 @@ def main():
     with open(os.path.join(HERE, "RESULTS.md"), "w") as f:
         f.write("# Mutation self-test results (quick tier)\n\n| mutant | file | suite still passes | expected | caught by | witness keys |\n|---|---|---|---|---|---|\n")
         for r in allr:
+            if r["name"] in mutants.EQUIVALENT:
+                continue
             if "error" in r:
                 f.write(f"| {r['name']} | - | - | - | ERROR {r['error']} | |\n")
                 continue
             keys = "; ".join(k.split(":")[0] for c in r["checks"] for k in c["keys"][:2])
             f.write(f"| {r['name']} | {r['file']} | {r.get('suite_passes', 'n/a')} | {','.join(r['expected'])} | {','.join(r['caught_by']) or '**MISSED**'} | {keys[:160]} |\n")
-    missed = [r["name"] for r in allr if "error" not in r and not r["caught_by"]]
+        f.write("\n## Mutants classified as equivalent with respect to the properties (not run)\n\n")
+        for k, why in mutants.EQUIVALENT.items():
+            f.write(f"* `{k}` - {why}\n")
+    missed = [r["name"] for r in allr if "error" not in r and not r["caught_by"] and r["name"] not in mutants.EQUIVALENT]
     print(f"{len(allr)} mutants, {len(missed)} missed: {missed}")
 
 
